@@ -6,6 +6,8 @@ package main
 
 import (
 	"context"
+	"encoding/json"
+	"unicode/utf8"
 	"crypto/md5"
 	"encoding/base64"
 	"encoding/hex"
@@ -27,6 +29,41 @@ type opx struct {
 	P    string `json:"p,omitempty"`
 	R    string `json:"r,omitempty"`
 	A    string `json:"a,omitempty"`
+}
+
+// opx travels through JSON replay files; strings that are not valid UTF-8 would be
+// mangled by encoding/json, so such an operation is written with hex fields.
+type opxWire struct {
+	Op   string `json:"op"`
+	Hex  bool   `json:"hex,omitempty"`
+	Addr string `json:"addr"`
+	U    string `json:"u,omitempty"`
+	P    string `json:"p,omitempty"`
+	R    string `json:"r,omitempty"`
+	A    string `json:"a,omitempty"`
+}
+
+func (o opx) MarshalJSON() ([]byte, error) {
+	w := opxWire{Op: o.Op, Addr: o.Addr, U: o.U, P: o.P, R: o.R, A: o.A}
+	if !utf8.ValidString(o.Addr + o.U + o.P + o.R + o.A) || !utf8.ValidString(o.Addr) || !utf8.ValidString(o.U) ||
+		!utf8.ValidString(o.P) || !utf8.ValidString(o.R) || !utf8.ValidString(o.A) {
+		h := func(s string) string { return hex.EncodeToString([]byte(s)) }
+		w = opxWire{Op: o.Op, Hex: true, Addr: h(o.Addr), U: h(o.U), P: h(o.P), R: h(o.R), A: h(o.A)}
+	}
+	return json.Marshal(w)
+}
+
+func (o *opx) UnmarshalJSON(data []byte) error {
+	var w opxWire
+	if err := json.Unmarshal(data, &w); err != nil {
+		return err
+	}
+	if w.Hex {
+		d := func(s string) string { b, _ := hex.DecodeString(s); return string(b) }
+		w.Addr, w.U, w.P, w.R, w.A = d(w.Addr), d(w.U), d(w.P), d(w.R), d(w.A)
+	}
+	*o = opx{Op: w.Op, Addr: w.Addr, U: w.U, P: w.P, R: w.R, A: w.A}
+	return nil
 }
 
 type histCase struct {
@@ -192,14 +229,37 @@ func runHistory(hc histCase) {
 		initDoc, ok = parseJSON([]byte(*hc.Init))
 		if !ok {
 			run.Count("init:unparseable")
-			// not a JSON document (or duplicate keys): only "does not damage" is checked
+			// not ONE well-formed JSON document for the harness's strict reader (duplicate keys, trailing
+			// garbage, BOM, empty file ...): there is no ground truth for preservation.  Checked: opening
+			// does not change the file; when encoding/json does load it, a stored credential reads back,
+			// also after reopening, and the file is one JSON document afterwards.
 			fs, err := credentials.NewFileStore(path)
 			after, _ := os.ReadFile(path)
 			if string(after) != *hc.Init {
 				run.OracleFail(id, "load-damaged", "opening an unparseable config changed it", hc)
 			}
-			_ = fs
-			_ = err
+			run.Evaluations++
+			if err != nil {
+				run.Count("init:unparseable-refused")
+				return
+			}
+			run.Count("init:unparseable-but-loaded")
+			want := auth.Credential{Username: "u", Password: "p:q", RefreshToken: "r"}
+			if perr, pan := safePut(fs, "lenient.example", want); pan != nil || perr != nil {
+				run.OracleFail(id, "put-error", fmt.Sprintf("Put on a leniently loaded config: %v %v", perr, pan), hc)
+				return
+			}
+			if c, gerr, _ := safeGet(fs, "lenient.example"); gerr != nil || c != want {
+				run.OracleFail(id, "roundtrip", fmt.Sprintf("leniently loaded config: Get = %v %v", c, gerr), hc)
+			}
+			if _, _, bad := readDoc(path); bad {
+				run.OracleFail(id, "file-unparseable", "after a save the leniently loaded config is still not one JSON document", hc)
+			}
+			if fs2, err := credentials.NewFileStore(path); err != nil {
+				run.OracleFail(id, "reload", "the saved file does not load: "+err.Error(), hc)
+			} else if c, gerr := fs2.Get(context.Background(), "lenient.example"); gerr != nil || c != want {
+				run.OracleFail(id, "reload-roundtrip", fmt.Sprintf("reopened: Get = %v %v", c, gerr), hc)
+			}
 			return
 		}
 	}
@@ -234,6 +294,7 @@ func runHistory(hc histCase) {
 	}
 
 	// ---- ground truth of the oracle ----
+	wantCS := ""                      // the original credsStore string
 	wantTop := map[string]string{}    // other top-level keys -> canonical value
 	wantEntry := map[string]string{}  // address -> canonical JSON of the entry that must be on disk
 	touched := map[string]bool{}      // addresses Put or Deleted so far
@@ -253,6 +314,9 @@ func runHistory(hc histCase) {
 			case kv.key == "credsStore" && (kv.val.k != jStr || kv.val.s == ""):
 				// an empty / null credsStore is "omitempty" for docker and this library: not asserted
 			default:
+				if kv.key == "credsStore" {
+					wantCS = kv.val.s
+				}
 				wantTop[kv.key] = kv.val.canon()
 			}
 		}
@@ -338,7 +402,21 @@ func runHistory(hc histCase) {
 					fail("colon-accepted", fmt.Sprintf("Put with user %q returned %v", o.U, err))
 				}
 				run.Count("put:refused")
+			} else if lossy := !utf8.ValidString(o.Addr) || !utf8.ValidString(o.R) || !utf8.ValidString(o.A); lossy && errors.Is(err, credentials.ErrBadCredentialFormat) {
+				// an address or token that JSON cannot hold: refusing it (and changing nothing) is fine;
+				// accepting it obliges the store to give it back, also after a reload (below)
+				run.Count("put:invalid-utf8")
+				run.Count("put:refused")
+				if after, _ := os.ReadFile(path); string(after) != string(beforePut) {
+					fail("refused-put-wrote", fmt.Sprintf("the refused Put(%q) changed the config file", o.Addr))
+				}
 			} else {
+				if lossy {
+					run.Count("put:invalid-utf8")
+				}
+				if !utf8.ValidString(o.U) || !utf8.ValidString(o.P) {
+					run.Count("put:invalid-utf8-userpass")
+				}
 				if err != nil {
 					fail("put-error", fmt.Sprintf("Put(%q) failed: %v", o.Addr, err))
 				} else {
@@ -351,6 +429,32 @@ func runHistory(hc histCase) {
 					legacyKeys[o.Addr] = true
 					wantEntry[o.Addr] = expectedEntry(o).canon()
 					saved = true
+				}
+			}
+		case "C": // Config.SetCredentialsStore(o.Addr)
+			var err error
+			var pan any
+			func() {
+				defer func() { pan = recover() }()
+				err = credentials.VerifSetCredentialsStore(fs, o.Addr)
+			}()
+			if pan != nil {
+				fail("panic", fmt.Sprintf("SetCredentialsStore(%q) panicked: %v", o.Addr, pan))
+				run.Evaluations++
+				return
+			}
+			res = resultStr(nil, err)
+			modelOps = append(modelOps, "C "+common.Hex(o.Addr))
+			if err != nil {
+				fail("setcs-error", fmt.Sprintf("SetCredentialsStore(%q) failed: %v", o.Addr, err))
+			} else {
+				saved = true
+				nontrivial = true
+				wantCS = o.Addr
+				if o.Addr != "" {
+					wantTop["credsStore"] = jstr(o.Addr).canon()
+				} else {
+					delete(wantTop, "credsStore")
 				}
 			}
 		case "D":
@@ -403,17 +507,26 @@ func runHistory(hc histCase) {
 			fail("file-unparseable", "config file is not a JSON object")
 			continue
 		}
+		lossyImage := map[string]bool{} // names that are the U+FFFD image of a key with a lone surrogate
 		for k, want := range wantTop {
 			got := doc.get(k)
-			if got == nil {
+			switch {
+			case got == nil && hasLoneSurrogate(k) && doc.get(goString(k)) != nil && doc.get(goString(k)).canon() == want:
+				// KNOWN FINDING, matched by mechanism: the key differs from the original exactly by
+				// lone surrogate -> U+FFFD and its value is intact
+				lossyImage[goString(k)] = true
+				fail("lone-surrogate-rewritten", fmt.Sprintf("top-level key %q was renamed to %q by the save (encoding/json reads a lone surrogate escape as U+FFFD)", k, goString(k)))
+			case got == nil:
 				fail("top-key-lost", fmt.Sprintf("top-level key %q disappeared after %s %q", k, o.Op, o.Addr))
-			} else if got.canon() != want {
+			case got.canon() != want && k == "credsStore" && got.k == jStr && hasLoneSurrogate(wantCS) && got.s == goString(wantCS):
+				fail("lone-surrogate-rewritten", fmt.Sprintf("credsStore %q was rewritten as %q by the save", wantCS, got.s))
+			case got.canon() != want:
 				fail("top-key-changed", fmt.Sprintf("top-level key %q changed after %s %q: %s -> %s", k, o.Op, o.Addr, want, got.canon()))
 			}
 		}
 		if saved {
 			for _, kv := range doc.obj {
-				if _, ok := wantTop[kv.key]; !ok && kv.key != "auths" && kv.key != "credsStore" {
+				if _, ok := wantTop[kv.key]; !ok && kv.key != "auths" && kv.key != "credsStore" && !lossyImage[kv.key] {
 					fail("top-key-invented", fmt.Sprintf("top-level key %q appeared", kv.key))
 				}
 			}
@@ -427,7 +540,10 @@ func runHistory(hc histCase) {
 					if touched[a] {
 						sig = "put-entry"
 					}
-					if got == nil {
+					if got == nil && !touched[a] && hasLoneSurrogate(a) && auths.get(goString(a)) != nil && auths.get(goString(a)).canon() == want {
+						lossyImage[goString(a)] = true
+						fail("lone-surrogate-rewritten", fmt.Sprintf("auths key %q was renamed to %q by the save", a, goString(a)))
+					} else if got == nil {
 						fail(sig+"-lost", fmt.Sprintf("auths entry %q disappeared after %s %q", a, o.Op, o.Addr))
 					} else if got.canon() != want && !touched[a] {
 						// (the on-disk form of an entry written by Put is not prescribed by the property: it is
@@ -436,7 +552,7 @@ func runHistory(hc histCase) {
 					}
 				}
 				for _, e := range auths.obj {
-					if _, ok := wantEntry[e.key]; !ok {
+					if _, ok := wantEntry[e.key]; !ok && !lossyImage[e.key] {
 						fail("delete-not-removed", fmt.Sprintf("auths entry %q present although deleted / never stored", e.key))
 					}
 				}
